@@ -177,6 +177,12 @@ func FuncPkgRel(f *ssa.Function) string {
 	return strings.TrimPrefix(strings.TrimPrefix(pk.Path(), ModulePath), "/")
 }
 
+// IsModuleFunc reports whether f is defined in a package of the analysed module.
+func IsModuleFunc(f *ssa.Function) bool {
+	pk := funcPkg(f)
+	return pk != nil && (pk.Path() == ModulePath || strings.HasPrefix(pk.Path(), ModulePath+"/"))
+}
+
 // CallGraph returns the VTA call graph (built lazily over all functions).
 func (p *Program) CallGraph() *callgraph.Graph {
 	if p.cg == nil {
